@@ -25,8 +25,9 @@ type Obligation struct {
 	Desc   string
 	Func   string
 	Case   string
-	Block  int          // top-level block of the obligation (-1: none)
-	Reach  map[int]bool // blocks whose facts are relevant (ancestors of Block in the CFG); nil: all
+	Block  int             // top-level block of the obligation (-1: none)
+	Reach  map[int]bool    // blocks whose facts are relevant (ancestors of Block in the CFG); nil: all
+	Cur    map[string]bool // heap version symbols current at the obligation
 
 	// filled by the solver stage
 	Status string // unsat sat unknown timeout error
@@ -39,16 +40,16 @@ type Obligation struct {
 
 type Script struct {
 	caseTerms []string // entry-state conditions of the contract's case split (named Boolean constants)
-	decls    []string
-	sigs     map[string]string
-	declared map[string]bool
-	dropped  int
-	qcount   int
-	local    bool
-	curBlock int   // index of the top-level block being translated (-1: none)
-	factBlk  []int // per fact: the top-level block it was emitted in (-1: global)
-	facts    []string
-	obls     []*Obligation
+	decls     []string
+	sigs      map[string]string
+	declared  map[string]bool
+	dropped   int
+	qcount    int
+	local     bool
+	curBlock  int   // index of the top-level block being translated (-1: none)
+	factBlk   []int // per fact: the top-level block it was emitted in (-1: global)
+	facts     []string
+	obls      []*Obligation
 }
 
 func newScript() *Script {
